@@ -697,7 +697,11 @@ class Interp:
         kwargs = {}
         for kw in n.keywords:
             if kw.arg is None:
-                raise Unsupported("**kwargs call")
+                extra = self.expr(kw.value, env)
+                if not isinstance(extra, dict) or not all(isinstance(k_, str) for k_ in extra):
+                    raise Unsupported("**kwargs call with a non-dict")
+                kwargs.update(extra)
+                continue
             kwargs[kw.arg] = self.expr(kw.value, env)
         # method calls on values
         if isinstance(f, ast.Attribute):
@@ -742,6 +746,9 @@ class Interp:
                 return getattr(base, m)(*args)
             if base is dict and m == "fromkeys":
                 return dict.fromkeys(*args)
+            if getattr(base, "__dl_native__", False):
+                # a recorder object handed in by the checker (fake Path ...): its methods are the checker's own code
+                return getattr(base, m)(*args, **kwargs)
             if isinstance(base, Synth) and getattr(base, "__dl_class__", None) and f"{base.__dl_class__}.{m}" in self.mod.funcs:
                 # a host object fabricated by the checker: its methods are the class's functions of this module
                 fn_ = self.mod.funcs[f"{base.__dl_class__}.{m}"]
